@@ -389,6 +389,7 @@ def configs(tier):
     br_c = ("bridge", 2, [(16, 0, "rw1c"), (5, None, "rw")])
     ev1 = ("evmon", 1, 0)
     ev3 = ("evmon", 3, 1)
+    ev20 = ("evmon", 20, 0)        # 3-chunk mask registers: 'pending' sits at the unaligned range 3..6
     gp = ("gpio", 2, 2)
     cdec1 = ("dec", 5, 0, [S(br_a, name="a"), S(ev1), S(gp, name="gpio")])
     cdec2 = ("dec", 5, 0, [S(ev3, addr=16), S(br_b, addr=0, name="b")])
@@ -408,6 +409,8 @@ def configs(tier):
         add(dw, aw, [S(("csr", cdec2, "io"), addr=64), S(("sram", 16, False), addr=16), S(("sram", 8, True), addr=0)])
         # bridge directly over one peripheral, align_to between adds, decoder alignment
         add(dw, aw, [S(("csr", br_a)), S(("sram", 4 if lanes <= 4 else 8, True), align_to=5), S(("csr", ev3, "ev"), name=None)], align=3)
+        if not quick or dw in (8, 32):
+            add(dw, aw, [S(("sram", 8, True)), S(("csr", ("dec", 5, 0, [S(ev20, name="irq"), S(br_c)])), name="p")])
         if not quick or dw == 16:
             add(dw, aw + 1, [S(("sram", 8, True)), S(("csr", cdec_nested), name="n")])
             add(dw, aw, [S(("csr", gp)), S(("csr", br_c), name="c"), S(("sram", 8, True))])
